@@ -43,6 +43,11 @@ def step (st : St) (ws : List String) : St × String :=
     match build (applySets (ps.map parsePair)) with
     | none => (st, overflowMsg)
     | some v => showVals v
+  | "buildraw" :: ps | "array" :: ps =>
+    -- a map filled directly / ArrayToValidators: only the non-zero final pairs count (zero = absent)
+    match build (applySets (ps.map parsePair)) with
+    | none => (st, overflowMsg)
+    | some v => showVals v
   | "big" :: ps =>
     match bigBuild (applyBigSets (ps.map parseBig)) with
     | none => (st, overflowMsg)
